@@ -881,6 +881,9 @@ func fillRunOut(out *RunOut, p *PipePlan, obs *PipeObs) {
 	if obs.Signaled {
 		out.Faults["signal"]++
 	}
+	if p.Profile != "" && p.Profile != "clean" {
+		out.Probes["profile:"+p.Profile]++
+	}
 	out.Probes["published"] += len(obs.Published)
 	out.Probes["received"] += len(obs.Recv)
 	out.Probes["raw-packets-mirrored"] += len(obs.Raw)
